@@ -26,6 +26,23 @@ pub(crate) struct GenericSocketBackend {
     pub(crate) socket_monitor: Mutex<Option<mpsc::Sender<SocketEvent>>>,
 }
 
+/// Makes `backend` forget a peer as soon as the fair queue finds that peer's stream ended: without
+/// this, a peer that closed its connection in an orderly way stayed registered (its write half
+/// open, sends still routed to it) for as long as the socket lived.
+pub(crate) fn forget_ended_peers<S, B>(
+    fair_queue: &mut crate::fair_queue::FairQueue<S, PeerIdentity>,
+    backend: &Arc<B>,
+) where
+    B: MultiPeerBackend + 'static,
+{
+    let backend = Arc::downgrade(backend);
+    fair_queue.on_stream_end(move |peer_id| {
+        if let Some(backend) = backend.upgrade() {
+            backend.peer_disconnected(peer_id);
+        }
+    });
+}
+
 impl GenericSocketBackend {
     pub(crate) fn with_options(
         fair_queue_inner: Option<Arc<Mutex<QueueInner<ZmqFramedRead, PeerIdentity>>>>,
